@@ -1,1 +1,13 @@
-// project generator (built by the projgen task)
+//! `hx_projgen` — shared infrastructure for every compiler-pipeline property family:
+//! structured isograph projects (`model`), their rendering to files (`render`), a type-directed
+//! generator with single-fault mutants and meaning-preserving rearrangements (`gen`), drivers
+//! for the REAL compiler (`compile`) and the wire format shared with the Lean side (`wire`).
+//! See `README.md`.
+pub mod compile;
+pub mod diag_kinds;
+pub mod env;
+pub mod gen;
+pub mod model;
+pub mod render;
+
+pub use hx_common::Rng;
